@@ -41,6 +41,7 @@ class FakeDevice:
         self.ip = ip
         self.ports = ports
         self.servers = []
+        self._listening = {}
         self.conns: List[Conn] = []
         # responder(conn, index, frame) -> bytes | EOF | DROP ; may be async
         self.responder: Callable = auto_responder()
@@ -50,8 +51,27 @@ class FakeDevice:
 
     async def start(self) -> None:
         for port in self.ports:
+            if port in self._listening:
+                continue
             srv = await asyncio.start_server(lambda r, w, p=port: self._serve(p, r, w), host=self.ip, port=port, reuse_address=True)
             self.servers.append(srv)
+            self._listening[port] = srv
+
+    async def stop_port(self, port: int) -> None:
+        """Stop listening on one control port only (the other one keeps accepting)."""
+        srv = self._listening.pop(port, None)
+        if srv is None:
+            return
+        self.servers.remove(srv)
+        srv.close()
+        for c in self.conns:
+            if c.port == port and not c.closed:
+                c.closed = True
+                c.writer.close()
+        try:
+            await srv.wait_closed()
+        except Exception:
+            pass
 
     async def stop(self) -> None:
         for srv in self.servers:
@@ -66,6 +86,7 @@ class FakeDevice:
             except Exception:
                 pass
         self.servers = []
+        self._listening = {}
 
     def fresh_session(self, rnd=None) -> bytes:
         """A session id never issued before by this device (so a stale one is unmistakable)."""
